@@ -23,7 +23,7 @@ BUDGET_S = {'quick': 55, 'thorough': 540}
 
 KNOBS = {'n_min': 2, 'n_max': 5, 'late_p': 0.2, 'trigger_p': 0.15,
          'kinds': ['crash', 'restart', 'restart', 'partition', 'cutlink', 'crash_master', 'crash_master',
-                   'restart_master'],
+                   'restart_master', 'proc_kill', 'proc_kill'],
          'apps': {'n_apps': (1, 2), 'n_progs': (1, 2)}}
 
 
